@@ -25,7 +25,7 @@ import (
 //
 //	(resp status minor (hdr ...) #body) orient) ...) (left nreq nresp))
 func init() {
-	families["http.conv"] = &Family{Gen: genHttpConv, Run: runHttpConv}
+	families["http.conv"] = &Family{Gen: genHttpConvPragma, Run: runHttpConv}
 	families["http.split"] = &Family{Gen: genHttpSplit, Run: runHttpSplit}
 	families["http.entry"] = &Family{Gen: genHttpEntry, Run: runHttpEntry}
 	families["http.rawsplit"] = &Family{Gen: genHttpRawSplit, Run: runHttpRawSplit}
@@ -489,4 +489,27 @@ func genHttpEntry(r *Rand, tier string, emit func(sx.Sx)) {
 			emit(conv)
 		}
 	})
+}
+
+// genHttpConvPragma: the conversations of genHttpConv, and (for http.conv alone) requests carrying the HTTP/1.0
+// `Pragma: no-cache` - alone, next to a Cache-Control header, after another Pragma value.  net/http adds
+// `Cache-Control: no-cache` to a request that has the first without the second (recorded finding
+// http-pragma-cache-control: the entry shows a header that was never sent).
+func genHttpConvPragma(r *Rand, tier string, emit func(sx.Sx)) {
+	genHttpConv(r, tier, emit)
+	h := func(n, v string) sx.Sx { return sx.L(sx.S(n), sx.S(v)) }
+	for _, hs := range [][]sx.Sx{
+		{h("Host", "host.example"), h("Pragma", "no-cache")},
+		{h("Host", "host.example"), h("pragma", "no-cache"), h("Accept", "*/*")},
+		{h("Host", "host.example"), h("Pragma", "no-cache"), h("Cache-Control", "max-age=0")},
+		{h("Host", "host.example"), h("Cache-Control", "no-cache"), h("Pragma", "no-cache")},
+		{h("Host", "host.example"), h("Pragma", "x-other"), h("Pragma", "no-cache")},
+		{h("Host", "host.example"), h("Pragma", "No-Cache")},
+	} {
+		for _, rh := range [][]sx.Sx{{}, {h("Pragma", "no-cache")}, {h("Pragma", "no-cache"), h("Cache-Control", "no-store")}} {
+			req := sx.L(sx.A("req"), sx.S("GET"), sx.S("/cached"), sx.N(1), sx.L(hs...), sx.A("none"), sx.B(nil))
+			resp := sx.L(sx.A("resp"), sx.N(200), sx.S("OK"), sx.N(1), sx.L(rh...), sx.A("cl"), sx.B([]byte("ok")))
+			emit(sx.L(sx.L(sx.A("ex"), req, resp)))
+		}
+	}
 }
